@@ -686,3 +686,6 @@ fn c13_servings_number() {
     std::mem::forget(r);
     std::mem::forget(v);
 }
+
+// NOTE: a harness on `value_as_tags` (YAML list of three one-byte strings) was measured and dropped: CBMC did not
+// finish within 900 s (Cow<str> equality + Vec<Cow> growth).
